@@ -95,12 +95,21 @@ func AsmChild() {
 	os.Setenv("INBUCKET_POP3_ADDR", "127.0.0.1:0")
 	os.Setenv("INBUCKET_WEB_ADDR", "127.0.0.1:0")
 	os.Setenv("INBUCKET_WEB_UIDIR", dir)
-	if c.Store == "file" {
+	// store field: mem | file, optionally ":<mailbox message cap>" and ":<maxkb>" (memory store size limit)
+	sf := strings.Split(c.Store, ":")
+	os.Unsetenv("INBUCKET_STORAGE_MAILBOXMSGCAP")
+	if len(sf) > 1 && sf[1] != "" {
+		os.Setenv("INBUCKET_STORAGE_MAILBOXMSGCAP", sf[1])
+	}
+	if sf[0] == "file" {
 		os.Setenv("INBUCKET_STORAGE_TYPE", "file")
 		os.Setenv("INBUCKET_STORAGE_PARAMS", "path:"+dir)
 	} else {
 		os.Setenv("INBUCKET_STORAGE_TYPE", "memory")
 		os.Unsetenv("INBUCKET_STORAGE_PARAMS")
+		if len(sf) > 2 && sf[2] != "" {
+			os.Setenv("INBUCKET_STORAGE_PARAMS", "maxkb:"+sf[2])
+		}
 	}
 	storage.Constructors["file"] = file.New
 	storage.Constructors["memory"] = mem.New
